@@ -5,9 +5,11 @@ the repository corpus is compiled with and without -g at O0, O1, O2; verdicts,
 sections 1-3 and the behaviour under one scripted environment must agree."""
 from .. import impl, corpus
 from .. import blockshapes as bs
+from .. import c08_fams as xf
 
 LEVEL = 'exploration'
 HORIZON = 60000
+CHUNK = {'ws': 40, 'onerror': 40, 'constdecl': 40, 'longexpr': 1}
 
 
 class _ResumeSeen:
@@ -107,10 +109,15 @@ def _feat_of(fam, feat, div, opts):
     for k in ('construct', 'style', 'cond'):
         if k in feat:
             f[k] = feat[k]
+    if fam in XFAMS:
+        f.update({k: v for k, v in feat.items() if k not in ('where', 'stmt')})
     if 'outer' in feat:
         f['cond'] = feat['outer'].get('cond', '-')
         f['inner_cond'] = feat['inner'].get('cond', '-')
     return f
+
+
+XFAMS = ('ws', 'onerror', 'constdecl', 'longexpr')
 
 
 def eval_chunk(chunk):
@@ -122,7 +129,7 @@ def eval_chunk(chunk):
           'outcomes': set(), 'per_family': {}}
     for item in chunk:
         fam = item[0]
-        if fam == 'corpus':
+        if fam == 'corpus' or fam in XFAMS:
             _, src, script, feat = item
             on_empty = None
             case = {'src': src, 'script': script, 'on_empty': None, 'feat': feat}
@@ -169,6 +176,7 @@ def space(tier):
                    {'construct': 'corpus', 'file': c['file'], 'idx': c['idx'],
                     'expected': c['expected']}))
     fams['corpus'] = cs
+    fams.update(xf.programs(tier))
     return fams
 
 
@@ -180,11 +188,11 @@ def run(chk):
             chk.cov['exhaustive'] = False
             continue
         desc[name] = {'cases': len(items)}
-        for viol, st in chk.pmap(eval_chunk, items, chunk=60):
+        for viol, st in chk.pmap(eval_chunk, items, chunk=CHUNK.get(name, 60)):
             chk.add_violations(viol)
             chk.merge_stats(st)
         for it in (items[0], items[len(items) // 2], items[-1]):
-            if name == 'corpus':
+            if name == 'corpus' or name in XFAMS:
                 chk.sample({'family': name, 'src': it[1][:300]})
             else:
                 chk.sample({'family': name, 'src': bs.render(it[1], it[2]).src[:300]})
